@@ -1,6 +1,8 @@
 (* C11 - nothing passes to or from the application outside an established session. *)
 From Coq Require Import ZArith NArith List Bool Lia ZifyBool.
 From AF Require Import Base.Sx Py.Str Fix.Session Lemmas.SessionL Lemmas.SessionC04L.
+From Coq Require String.
+Import String.StringSyntax.
 Import ListNotations.
 Open Scope Z_scope.
 
@@ -505,4 +507,359 @@ Proof.
   - intros Hd. destruct (H2 Hd) as [Hd' Hn]. rewrite Hn, (I1 Hd'). reflexivity.
   - destruct H1 as [H1|[H1 [Ha Hd]]]; rewrite H1; cbn [app length]; [exact I2|].
     rewrite (I1 Hd). cbn. lia.
+Qed.
+
+(* ------------------------------------------------------------------ nothing is delivered before the Logon *)
+
+Definition prelogon (w : world) : Prop :=
+  st w <= ST_DISC_BROKEN \/ st w = ST_NCE \/ st w = ST_LOGON_SENT \/ st w = ST_LOGON_RECV.
+
+Definition prelogon_st (s : Z) : Prop :=
+  s <= ST_DISC_BROKEN \/ s = ST_NCE \/ s = ST_LOGON_SENT \/ s = ST_LOGON_RECV.
+
+Lemma send_msg_keeps_prelogon c m : keeps prelogon (send_msg c m).
+Proof. apply (send_msg_keeps_st c m prelogon_st). unfold prelogon_st. stlia. Qed.
+
+Lemma keeps_bind_raise {A B} (I : world -> Prop) x (k : A -> M B) : keeps I (bind (raise x) k).
+Proof. intros w Hw. exact Hw. Qed.
+
+Lemma disconnect_keeps_prelogon c ds lm : keeps prelogon (disconnect c ds lm).
+Proof.
+  unfold disconnect. keeps_step; [keeps_tac|]. destruct (st a <=? ST_DISC_BROKEN); [keeps_tac|].
+  destruct (ds <=? ST_DISC_BROKEN) eqn:E; [|apply keeps_bind_raise].
+  keeps_step; [keeps_tac|]. keeps_step; [apply keeps_modw; intros w H; exact H|].
+  keeps_step. { destruct lm; [apply send_msg_keeps_prelogon|keeps_tac]. }
+  keeps_step; [apply keeps_modw; intros w H; exact H|].
+  keeps_step; [|keeps_tac].
+  intros w _. left. rewrite state_set_st. lia.
+Qed.
+
+(* _process_logon from a pre-Logon state: it either raises (still pre-Logon) or reports on_logon *)
+Lemma process_logon_pl c m w :
+  prelogon w ->
+  logons (re (process_logon c m w)) <> [] \/
+  (prelogon (rw (process_logon c m w)) /\ exists x, rv (process_logon c m w) = inr x).
+Proof.
+  intros Hw. unfold process_logon. rewrite bind_unfold. cbn [getw rv rw re app].
+  destruct (negb _); [right; cbn; eauto|].
+  rewrite bind_unfold. destruct (get_int T34 m) as [n|x]; cbn [lift ret raise rv rw re app]; [|right; eauto].
+  rewrite bind_unfold.
+  set (A := (if role w =? ROLE_ACCEPTOR then _ else ret tt) w).
+  assert (HA : prelogon (rw A)).
+  { subst A. destruct (role w =? ROLE_ACCEPTOR); [|exact Hw].
+    destruct (negb (st w =? ST_LOGON_RECV)); [exact Hw|]. destruct (nin w <=? n); [|exact Hw].
+    rewrite bind_unfold. destruct (get_tag T98 m); cbn [lift ret raise rv rw re]; [|exact Hw].
+    rewrite bind_unfold. destruct (get_tag T108 m); cbn [lift ret raise rv rw re]; [|exact Hw].
+    apply send_msg_keeps_prelogon. exact Hw. }
+  destruct (rv A) eqn:EA; cbn [rv rw re]; [|right; eauto].
+  left. rewrite bind_unfold. cbn [getw rv rw re app]. rewrite bind_unfold.
+  rewrite !logons_app.
+  destruct (n =? nin (rw A)); cbn; intros H; apply app_eq_nil in H; destruct H as [_ H]; discriminate.
+Qed.
+
+Lemma logons_nonnil_app_l a b : logons a <> [] -> logons (a ++ b) <> [].
+Proof. rewrite logons_app. destruct (logons a); [congruence|discriminate]. Qed.
+Lemma logons_nonnil_app_r a b : logons b <> [] -> logons (a ++ b) <> [].
+Proof. rewrite logons_app. destruct (logons b); [congruence|]. intros _ H. apply app_eq_nil in H. destruct H; discriminate. Qed.
+
+(* part1 for a Logon from a pre-Logon state *)
+Lemma part1_logon_pl c m w :
+  prelogon w -> mkind m = KLogon ->
+  logons (re (part1 c m w)) <> [] \/
+  (prelogon (rw (part1 c m w)) /\ exists x, rv (part1 c m w) = inr x).
+Proof.
+  intros Hw Hk. unfold part1. rewrite bind_unfold. cbn [getw rv rw re app].
+  destruct (st w <? ST_NCE); [right; cbn; eauto|].
+  rewrite Hk. rewrite andb_false_r. rewrite bind_unfold.
+  unfold pre_handlers. rewrite Hk. rewrite bind_unfold.
+  set (A := (if st w =? ST_NCE then state_set ST_LOGON_RECV ;;; modw (set_role ROLE_ACCEPTOR) else ret tt) w).
+  assert (HA : rv A = inl tt /\ prelogon (rw A)).
+  { subst A. destruct (st w =? ST_NCE); cbn; split; auto. right. right. right. reflexivity. }
+  destruct HA as [HA1 HA2]. rewrite HA1. cbn [rv rw re].
+  destruct (process_logon_pl c m (rw A) HA2) as [H|[H [x Hx]]].
+  - left. destruct (rv (process_logon c m (rw A))); cbn [rv rw re].
+    + apply logons_nonnil_app_l. apply logons_nonnil_app_r. exact H.
+    + apply logons_nonnil_app_r. exact H.
+  - right. rewrite Hx. cbn [rv rw re]. eauto.
+Qed.
+
+(* known-finding classes of C11 *)
+(* D15: a connection in LOGON_INITIAL_SENT treats any inbound message that is not a Logon as if logged on *)
+Definition D15_step (c : cfg) (s : srec) : Prop :=
+  exists m now, s_op s = OIn m now /\ st (s_before s) = ST_LOGON_SENT /\ mkind m <> KLogon
+                /\ validate_integrity c m (s_before s) = VOk.
+(* D25: an acceptor stuck in LOGON_INITIAL_RECV (its Logon handling raised) does the same *)
+Definition D25_step (c : cfg) (s : srec) : Prop :=
+  exists m now, s_op s = OIn m now /\ st (s_before s) = ST_LOGON_RECV /\ mkind m <> KLogon
+                /\ validate_integrity c m (s_before s) = VOk.
+
+Lemma kind_logon_dec m : mkind m = KLogon \/ mkind m <> KLogon.
+Proof. destruct (mkind m); auto; right; discriminate. Qed.
+
+Lemma vres_ok_dec v : v = VOk \/ v <> VOk.
+Proof. destruct v; auto; right; discriminate. Qed.
+
+Lemma step_prelogon c o w :
+  let s := mkS w o (step c o w) in
+  prelogon w -> ~ D15_step c s -> ~ D25_step c s ->
+  apps (s_events s) = [] /\ (prelogon (s_after s) \/ logons (s_events s) <> []).
+Proof.
+  intros s Hw H15 H25. subst s. unfold s_events, s_after in *. cbn [s_res s_before s_op] in *.
+  destruct o as [m now|m|now|ds lm]; cbn [step].
+  2:{ split; [apply apps_nil, send_msg_allev; cbn; auto|]. left. apply send_msg_keeps_prelogon. exact Hw. }
+  2:{ split; [apply apps_nil, send_test_req_allev; cbn; auto|]. left.
+      unfold send_test_req. rewrite bind_unfold. cbn [getw rv rw re].
+      destruct (treq w); [exact Hw|]. rewrite bind_unfold. cbn [modw rv rw re].
+      apply send_msg_keeps_prelogon. exact Hw. }
+  2:{ split; [apply apps_nil, disconnect_allev; cbn; auto|]. left. apply disconnect_keeps_prelogon. exact Hw. }
+  destruct (vres_ok_dec (validate_integrity c m w)) as [V|V].
+  2:{ unfold process_message. destruct (validate_integrity c m w); try congruence.
+      - split; [apply apps_nil, disconnect_allev; cbn; auto|]. left. apply disconnect_keeps_prelogon. exact Hw.
+      - split; [apply apps_nil, disconnect_allev; cbn; auto|]. left. apply disconnect_keeps_prelogon. exact Hw.
+      - cbn. auto. }
+  destruct Hw as [Hd|[H6|H78]].
+  - destruct (process_message_dead c m now w Hd) as [E1 E2]. rewrite E1, E2. split; auto. left. left. exact Hd.
+  - destruct (kind_logon_dec m) as [Hk|Hk].
+    2:{ rewrite (first_must_be_logon c m now w H6 V Hk). cbn. split; auto. left. left. cbn. stlia. }
+    split.
+    + destruct (pm_apps _ _ _ _ (process_message_spec c m now w)) as [H|[_ [Hk' _]]]; [exact H|congruence].
+    + unfold process_message. rewrite V. rewrite bind_unfold. unfold try_.
+      assert (Hpl : prelogon w) by (right; left; exact H6).
+      destruct (part1_logon_pl c m w Hpl Hk) as [H|[H [x Hx]]].
+      * right. destruct (rv (part1 c m w)); cbn [rv rw re]; apply logons_nonnil_app_l; exact H.
+      * left. rewrite Hx. cbn. exact H.
+  - assert (Hk : mkind m = KLogon).
+    { destruct (kind_logon_dec m) as [Hk|Hk]; [exact Hk|]. exfalso. destruct H78 as [H7|H8].
+      - apply H15. exists m, now. cbn. auto.
+      - apply H25. exists m, now. cbn. auto. }
+    split.
+    + destruct (pm_apps _ _ _ _ (process_message_spec c m now w)) as [H|[_ [Hk' _]]]; [exact H|congruence].
+    + unfold process_message. rewrite V. rewrite bind_unfold. unfold try_.
+      assert (Hpl : prelogon w) by (right; right; exact H78).
+      destruct (part1_logon_pl c m w Hpl Hk) as [H|[H [x Hx]]].
+      * right. destruct (rv (part1 c m w)); cbn [rv rw re]; apply logons_nonnil_app_l; exact H.
+      * left. rewrite Hx. cbn. exact H.
+Qed.
+
+Lemma apps_nil_not_in l m : apps l = [] -> ~ In (App m) l.
+Proof.
+  induction l as [|[] l IH]; cbn; intros H; try (intros [Hx|Hx]; [discriminate|apply IH; auto]); auto.
+  discriminate.
+Qed.
+
+(* every App event of the history is preceded by an OnLogon event *)
+Lemma run_no_app_before_logon c h : forall w,
+  prelogon w ->
+  Forall (fun s => ~ D15_step c s /\ ~ D25_step c s) (run c w h) ->
+  forall pre m post, trace (run c w h) = pre ++ App m :: post -> logons pre <> [].
+Proof.
+  induction h as [|o h IH]; intros w Hw Hc pre m post Ht.
+  { cbn in Ht. destruct pre; discriminate. }
+  rewrite trace_cons in Ht. cbn [run] in Hc. inversion Hc as [|s l [H15 H25] Hrest]; subst.
+  destruct (step_prelogon c o w Hw H15 H25) as [Ha Hp]. unfold s_events, s_after in *. cbn [s_res] in *.
+  apply app_eq_app in Ht. destruct Ht as [l [[E1 E2]|[E1 E2]]].
+  - destruct l as [|e l'].
+    + rewrite app_nil_r in E1. cbn in E2. subst pre.
+      destruct Hp as [Hp|Hp]; [|exact Hp].
+      exfalso. apply (IH _ Hp Hrest [] m post); [rewrite <- E2; reflexivity|reflexivity].
+    + exfalso. inversion E2; subst. apply (apps_nil_not_in _ m Ha). rewrite E1. apply in_or_app. right. left. reflexivity.
+  - subst pre. destruct Hp as [Hp|Hp]; [|apply logons_nonnil_app_l; exact Hp].
+    apply logons_nonnil_app_r. eapply (IH _ Hp Hrest l m post). exact E2.
+Qed.
+
+(* ------------------------------------------------------------------ the states the library ever sets *)
+
+Definition okst (s : Z) : Prop := In s [1; 2; 3; 6; 7; 8; 10; 11; 12; 17].
+Definition okstate (w : world) : Prop := okst (st w).
+
+Lemma keeps_okstate_pres {A} (k : M A) : pres st k -> keeps okstate k.
+Proof. intros H. apply (keeps_pres st okst). exact H. Qed.
+
+Lemma state_set_okstate s : okst s -> keeps okstate (state_set s).
+Proof. intros Hs w _. unfold okstate. rewrite state_set_st. exact Hs. Qed.
+
+Lemma send_msg_okstate c m : keeps okstate (send_msg c m).
+Proof. apply (send_msg_keeps_st c m okst). intros _. unfold okst. cbn. tauto. Qed.
+
+Ltac okst_solve := unfold okst; cbn; tauto.
+
+Ltac kst :=
+  repeat first
+    [ keeps_step
+    | match goal with
+      | |- keeps _ (modw _) => apply keeps_modw; intros ? ?; assumption
+      | |- keeps okstate (state_set _) => apply state_set_okstate; okst_solve
+      | |- keeps okstate (send_msg _ _) => apply send_msg_okstate
+      | |- keeps okstate (set_seq_num _ _) => apply keeps_okstate_pres, set_seq_num_st
+      | |- keeps okstate (recover_out _ _) => apply keeps_okstate_pres, recover_out_pres
+      | |- keeps okstate (persist_in _) => apply keeps_okstate_pres, persist_in_pres; ins_solve
+      | |- keeps okstate (set_next_num_in _) => apply keeps_okstate_pres, set_next_num_in_pres; ins_solve
+      end ].
+
+Lemma disconnect_okstate c ds lm : okst ds -> keeps okstate (disconnect c ds lm).
+Proof.
+  intros Hds. unfold disconnect. keeps_step; [keeps_tac|]. destruct (st a <=? ST_DISC_BROKEN); [keeps_tac|].
+  destruct (ds <=? ST_DISC_BROKEN); [|apply keeps_bind_raise].
+  keeps_step; [keeps_tac|]. keeps_step; [kst|].
+  keeps_step; [destruct lm; kst|]. keeps_step; [kst|]. keeps_step; [|keeps_tac].
+  apply state_set_okstate. exact Hds.
+Qed.
+
+Lemma replay_loop_okstate c rows : forall a b, keeps okstate (replay_loop c rows a b).
+Proof.
+  induction rows as [|r rows IH]; intros a b; cbn [replay_loop]; [keeps_tac|].
+  keeps_step; [keeps_tac|]. keeps_step; [keeps_tac|]. destruct (_ || _); [apply IH|].
+  keeps_step; [kst|]. keeps_step; [keeps_tac|]. keeps_step; [keeps_tac|]. keeps_step; [keeps_tac|].
+  keeps_step; [keeps_tac|]. keeps_step; [kst|apply IH].
+Qed.
+
+Lemma process_message_okstate c m now : keeps okstate (process_message c m now).
+Proof.
+  assert (Hd : forall lm, keeps okstate (disconnect c ST_DISC_BROKEN lm)) by (intros; apply disconnect_okstate; okst_solve).
+  assert (Hd2 : keeps okstate (disconnect c ST_DISC_WCONN None)) by (apply disconnect_okstate; okst_solve).
+  intros w Hw. unfold process_message. destruct (validate_integrity c m w); try (apply Hd; exact Hw); [|exact Hw].
+  revert w Hw. change (keeps okstate (r1 <- try_ (part1 c m) ;; after_part1 c m now r1)).
+  keeps_step.
+  - apply keeps_try. unfold part1. keeps_step; [keeps_tac|]. destruct (st a <? ST_NCE); [keeps_tac|].
+    destruct (_ && _); [keeps_step; [apply Hd|keeps_tac]|].
+    keeps_step.
+    + unfold pre_handlers. keeps_step; [kst|].
+      destruct (mkind m); try solve [keeps_tac].
+      * unfold process_logon. kst.
+      * unfold process_seqreset. kst.
+      * unfold process_logout. keeps_step; [keeps_tac|]. keeps_step; [keeps_tac|].
+        destruct (wasact a1); [apply Hd2|apply Hd].
+    + unfold gap_check. keeps_step; [keeps_tac|]. destruct (st a1 <=? ST_DISC_BROKEN); [keeps_tac|].
+      keeps_step; [keeps_tac|]. keeps_step; [|keeps_tac]. unfold check_gaps. kst.
+  - assert (Hdis : forall v, keeps okstate (dispatch c m v)).
+    { intros v. unfold dispatch. destruct (mkind m); try solve [keeps_tac].
+      - unfold process_resend.
+        assert (Hl : forall rows a b, keeps okstate (replay_loop c rows a b)) by apply replay_loop_okstate.
+        keeps_step; [keeps_tac|]. keeps_step; [kst|]. keeps_step; [keeps_tac|]. keeps_step; [keeps_tac|].
+        keeps_step; [kst|]. keeps_step; [keeps_tac|]. keeps_step; [kst|]. keeps_step; [apply Hl|].
+        kst.
+      - unfold process_testrequest. kst.
+      - unfold process_heartbeat. keeps_step; [keeps_tac|]. destruct (treq a0); [|keeps_tac].
+        destruct (get T112 (mtags m)); [|keeps_tac]. destruct (negb _); [apply Hd|kst]. }
+    assert (Hfin : keeps okstate (finalize m now)).
+    { unfold finalize, finalize_tail. kst. }
+    unfold after_part1. destruct a as [[[|]|]|]; try solve [keeps_tac].
+    + keeps_step; [apply keeps_try, Hdis|apply Hfin].
+    + keeps_step; [apply keeps_try, Hdis|keeps_tac].
+Qed.
+
+Definition op_ok (o : op) : Prop := match o with ODisc ds _ => okst ds | _ => True end.
+
+Lemma step_okstate c o : op_ok o -> keeps okstate (step c o).
+Proof.
+  intros Ho. destruct o as [m now|m|now|ds lm]; cbn [step].
+  - apply process_message_okstate.
+  - apply send_msg_okstate.
+  - unfold send_test_req. kst.
+  - apply disconnect_okstate. exact Ho.
+Qed.
+
+Lemma run_okstate c h : forall w,
+  okstate w -> Forall op_ok h -> Forall (fun s => okstate (s_before s) /\ okstate (s_after s)) (run c w h).
+Proof.
+  induction h as [|o h IH]; intros w Hw Ho; cbn [run]; constructor.
+  - inversion Ho; subst. split; [exact Hw|]. unfold s_after. cbn. apply step_okstate; assumption.
+  - inversion Ho; subst. apply IH; [apply step_okstate; assumption|assumption].
+Qed.
+
+(* ------------------------------------------------------------------ boolean class predicates, witnesses *)
+
+Definition D15_stepb (c : cfg) (s : srec) : bool :=
+  match s_op s with
+  | OIn m _ => (st (s_before s) =? ST_LOGON_SENT) && negb (kind_eqb (mkind m) KLogon)
+               && is_vok (validate_integrity c m (s_before s))
+  | _ => false
+  end.
+Definition D25_stepb (c : cfg) (s : srec) : bool :=
+  match s_op s with
+  | OIn m _ => (st (s_before s) =? ST_LOGON_RECV) && negb (kind_eqb (mkind m) KLogon)
+               && is_vok (validate_integrity c m (s_before s))
+  | _ => false
+  end.
+
+Lemma kind_eqb_neq a b : a <> b -> kind_eqb a b = false.
+Proof. destruct a, b; cbn; congruence. Qed.
+
+Lemma D15_stepb_complete c s : D15_step c s -> D15_stepb c s = true.
+Proof.
+  intros [m [now [Ho [Hs [Hk V]]]]]. unfold D15_stepb. rewrite Ho, Hs, V, (kind_eqb_neq _ _ Hk). reflexivity.
+Qed.
+Lemma D25_stepb_complete c s : D25_step c s -> D25_stepb c s = true.
+Proof.
+  intros [m [now [Ho [Hs [Hk V]]]]]. unfold D25_stepb. rewrite Ho, Hs, V, (kind_eqb_neq _ _ Hk). reflexivity.
+Qed.
+
+Lemma c11_classes_forallb c l :
+  forallb (fun s => negb (D15_stepb c s) && negb (D25_stepb c s)) l = true ->
+  Forall (fun s => ~ D15_step c s /\ ~ D25_step c s) l.
+Proof.
+  intros H. rewrite forallb_forall in H. apply Forall_forall. intros s Hs. specialize (H s Hs).
+  apply andb_true_iff in H. destruct H as [H1 H2]. split; intros Hd.
+  - apply (D15_stepb_complete c) in Hd. rewrite Hd in H1. discriminate.
+  - apply (D25_stepb_complete c) in Hd. rewrite Hd in H2. discriminate.
+Qed.
+
+Definition i_resend (seq b e : Z) := OIn (inbound (S "2") seq [(T7, z_to_dec b); (T16, z_to_dec e)]) 0.
+Definition i_logon_no98 (seq : Z) := OIn (inbound (S "A") seq [(T108, S "30")]) 0.
+Definition i_app_garbled := OIn (mkMsg (S "D")
+    [(T8, S "FIX.4.4"); (T9, S "100"); (T35, S "D"); (T49, S "SRV"); (T56, S "CLI");
+     (T34, S "abc"); (T52, S "20230101-10:00:00.000"); (T10, S "000")]) 0.
+
+(* D15: the initiator has sent its Logon and waits for the reply; an application message arrives *)
+Lemma initiator_app_before_logon_refuted :
+  exists c w h m, prelogon w /\ apps (trace (run c w h)) = [m] /\ logons (trace (run c w h)) = [].
+Proof.
+  exists cfg0, w_initiator, [o_logon; i_app 1]. eexists. split; [right; left; reflexivity|].
+  split; vm_compute; reflexivity.
+Qed.
+
+(* D15: ... or a ResendRequest: the connection becomes ACTIVE without any Logon from the peer *)
+Lemma initiator_active_without_logon_refuted :
+  exists c w h, prelogon w /\ st (final c w h) = ST_ACTIVE /\ logons (trace (run c w h)) = [].
+Proof.
+  exists cfg0, w_initiator, [o_logon; i_resend 1 1 0]. split; [right; left; reflexivity|].
+  split; vm_compute; reflexivity.
+Qed.
+
+(* D25 (new): a Logon without EncryptMethod leaves the acceptor in LOGON_INITIAL_RECV (no reply, no on_logon);
+   the next application message is delivered *)
+Lemma acceptor_stuck_logon_refuted :
+  exists c w h m, prelogon w /\ apps (trace (run c w h)) = [m] /\ logons (trace (run c w h)) = []
+                  /\ wires (trace (run c w h)) = [].
+Proof.
+  exists cfg0, w_acceptor, [i_logon_no98 1; i_app 1]. eexists. split; [right; left; reflexivity|].
+  split; [vm_compute; reflexivity|]. split; vm_compute; reflexivity.
+Qed.
+
+(* D27 (new): a non-numeric MsgSeqNum raises ValueError out of _process_message: nothing changes, the
+   connection is neither dropped nor is a Logout sent *)
+Lemma garbled_seqnum_refuted :
+  exists c w m now,
+    st w = ST_ACTIVE /\ get T49 (mtags m) = Some (c_target c) /\ get T56 (mtags m) = Some (c_sender c)
+    /\ (exists v, get T34 (mtags m) = Some v /\ py_int v = None)
+    /\ process_message c m now w = mkR (inr XValue) w [].
+Proof.
+  exists cfg0, (final cfg0 w_acceptor [i_logon 1]).
+  eexists (mkMsg (S "D") [(T8, S "FIX.4.4"); (T9, S "100"); (T35, S "D"); (T49, S "SRV"); (T56, S "CLI");
+                          (T34, S "abc"); (T52, S "20230101-10:00:00.000"); (T10, S "000")]), 0.
+  split; [vm_compute; reflexivity|]. split; [reflexivity|]. split; [reflexivity|].
+  split; [eexists; split; [reflexivity|vm_compute; reflexivity]|]. vm_compute. reflexivity.
+Qed.
+
+(* non-vacuity: a normal acceptor session is inside the scope of the partial theorem *)
+Definition h_session := [i_logon 1; i_app 2; i_app 3; OSend (mkMsg (S "D") [(S "11", S "X")]); OIn (inbound (S "5") 4 []) 0; i_app 5].
+Lemma session_in_scope :
+  prelogon w_acceptor
+  /\ Forall (fun s => ~ D15_step cfg0 s /\ ~ D25_step cfg0 s) (run cfg0 w_acceptor h_session)
+  /\ length (apps (trace (run cfg0 w_acceptor h_session))) = 2%nat
+  /\ length (discs (trace (run cfg0 w_acceptor h_session))) = 1%nat
+  /\ okstate w_acceptor.
+Proof.
+  split; [right; left; reflexivity|]. split; [apply c11_classes_forallb; vm_compute; reflexivity|].
+  split; [vm_compute; reflexivity|]. split; [vm_compute; reflexivity|]. unfold okstate, okst. cbn. tauto.
 Qed.
